@@ -4,7 +4,7 @@ rosu-map against the spec, and writes evidence."""
 import json
 import os
 
-from vlib import (ToolError, apalache, build_harness, finish, harness, report_mismatches, sany, tlc,
+from vlib import (SPEC, ToolError, apalache, build_harness, finish, harness, report_mismatches, sany, tlc,
                   tlc_trace)
 
 ALLKINDS = '{"tim", "dif", "eff", "smp"}'
@@ -335,7 +335,8 @@ def check_C12(ctx):
 # ----------------------------------------------------------------------------
 def hitobj_cases(ctx, alpha, n, maxlines, clear=True, bykind=True, emit=True, invariants=("RejectedHaveNoEffect", "ObjShape"),
                  expect_violation=False, simulate=None):
-    name = "%s_HitObjectLine_%s%d_%d%s%s" % ("Sim" if simulate else "MC", alpha, n, maxlines, "" if clear else "_noclear", "" if bykind else "_flag")
+    name = "%s_HitObjectLine_%s%d_%d%s%s%s" % ("Sim" if simulate else "MC", alpha, n, maxlines, "" if clear else "_noclear", "" if bykind else "_flag",
+                                              "_codec" if tuple(invariants) == ("LineCodec",) else "")
     cases = os.path.join(ctx.work, name + ".ndjson")
     body = cases + ".body"
     for p in (cases, body):
@@ -360,6 +361,84 @@ def hitobj_cases(ctx, alpha, n, maxlines, clear=True, bykind=True, emit=True, in
     return cases
 
 
+def rand_lines_module(ctx, nlines, salt=0):
+    """Randomised alphabet: abstract hit-object lines whose VALUES are drawn from wide ranges with the run's seed (type
+    fields beyond a byte and negative, any hit-sound integer, custom indices / volumes / banks far outside the usual
+    ones, coordinates up to the limit ...).  The TLA+ model stays the oracle; which values it is asked about changes
+    with VERIF_SEED.  Written as spec/RandLines.tla (EXTENDS HitObjectLine; the cfg overrides Alpha with RandAlpha)."""
+    import random
+    rnd = random.Random(ctx.seed * 7919 + 17 + salt * 104729)
+
+    def bi():
+        n = rnd.choice([0, 2, 2, 3, 4, 5, 5])
+        return 'Bi(%d, %d, %d, %d, %d, "%s")' % (n, rnd.choice([0, 1, 2, 3, rnd.randint(-3, 9)]), rnd.choice([0, 1, 2, 3, rnd.randint(-3, 9)]),
+                                              rnd.choice([0, 1, 2, rnd.randint(-6, 6), 2147483647, -2147483647]),
+                                              rnd.choice([0, 40, 100, rnd.randint(-50, 250)]), rnd.choice(["", "", "f.wav"]))
+
+    def high():
+        return rnd.choice([0, 0, 0, 256, 65536, 256 * rnd.randint(1, 4000000), -2147483648])
+
+    lines = []
+    for _ in range(nlines):
+        kind = rnd.choice(["circle", "circle", "slider", "slider", "spinner", "hold"])
+        low = {"circle": 1, "slider": 2, "spinner": 8, "hold": 128}[kind] | rnd.choice([0, 0, 4]) | (rnd.randint(0, 7) << 4)
+        if rnd.random() < 0.15:
+            low |= rnd.choice([1, 2, 8, 128, 64])         # more than one kind bit / the unused bit
+        ty = low + high()
+        snd = rnd.choice([rnd.randint(0, 15), rnd.randint(0, 15), rnd.randint(0, 255), 256 + rnd.randint(0, 15), -1, -rnd.randint(2, 300), 1000])
+        x, y = rnd.randint(-131072, 131072), rnd.randint(-131072, 131072)
+        if rnd.random() < 0.6:
+            x, y = rnd.randint(0, 512), rnd.randint(0, 384)
+        if low & 1 == 0 and low & 2 != 0:
+            x, y = 10, 10                                  # decoded as a slider: path tokens are named points around (10, 10)
+        t = rnd.choice([rnd.randint(-1000000, 1000000), 1000, 0])
+        f = ['!.x = %d' % x, '!.y = %d' % y, '!.t = %d' % t, '!.ty = %d' % ty, '!.snd = %d' % snd, '!.bi = %s' % bi()]
+        if kind == "circle":
+            f.append('!.nf = %d' % rnd.choice([5, 6, 6, 7]))
+        elif kind == "slider":
+            path = rnd.choice(['<<"L", "A">>', '<<"B", "A", "Cn">>', '<<"P", "A", "Cn">>', '<<"B", "A", "B", "Cn">>', '<<"C", "A", "A", "Cn">>', '<<"B0", "A">>'])
+            rep = rnd.choice([1, 1, 2, 3, rnd.randint(-3, 12), 0])
+            nn = max(0, rep - 1) + 2
+            nsnd = [rnd.choice([0, 2, 4, 8, rnd.randint(0, 300), -1]) for _ in range(rnd.choice([0, nn, nn, rnd.randint(0, nn + 1)]))]
+            nbank = [bi() if rnd.random() < 0.7 else 'Bi(2, %d, %d, 0, 0, "")' % (rnd.randint(0, 3), rnd.randint(0, 3)) for _ in range(rnd.choice([0, nn, nn, rnd.randint(0, nn + 1)]))]
+            f += ['!.path = %s' % path, '!.rep = %d' % rep, '!.len = %d' % rnd.choice([100, 35, 0, rnd.randint(-10, 131072)]),
+                  '!.nsnd = <<%s>>' % ", ".join(map(str, nsnd)), '!.nbank = <<%s>>' % ", ".join(nbank), '!.nf = %d' % rnd.choice([7, 8, 8, 9, 10, 11, 11, 12])]
+        else:
+            f += ['!.end = %d' % (t + rnd.choice([0, 500, rnd.randint(-500, 5000)])), '!.nf = %d' % rnd.choice([5, 6, 7, 7, 8])]
+        lines.append("[BaseLine EXCEPT %s]" % ", ".join(f))
+    text = ("------------------------------ MODULE RandLines ------------------------------\n"
+            "(* generated by bin/plans.py (rand_lines_module) from VERIF_SEED = %d - do not edit.  A randomised alphabet for\n"
+            "   HitObjectLine: the model is the oracle, the values it is asked about change with the seed. *)\n"
+            "EXTENDS HitObjectLine\n\nRandAlpha == <<\n    %s >>\n"
+            "=============================================================================\n") % (ctx.seed, ",\n    ".join(lines))
+    path = os.path.join(SPEC, "RandLines.tla")
+    old = open(path).read() if os.path.exists(path) else None
+    if old != text:
+        with open(path, "w") as fh:
+            fh.write(text)
+
+
+def hitobj_rand_cases(ctx, nlines, maxlines, invariants=("RejectedHaveNoEffect", "ObjShape", "LineCodec"), salt=0):
+    rand_lines_module(ctx, nlines, salt)
+    sany(ctx, "RandLines")
+    name = "MC_RandLines_%d_%d" % (nlines, maxlines)
+    cases = os.path.join(ctx.work, name + ".ndjson")
+    body = cases + ".body"
+    cfg = dict(spec="Spec", invariants=list(invariants),
+               constants=dict(AlphaName='"combo"', AlphaN="0", MaxLines=str(maxlines), MinLines="0", ClearOnEntry="TRUE", LastByKind="TRUE",
+                              Emit="TRUE", Alpha="<-RandAlpha"))
+    r = tlc(ctx, "RandLines", name, cfg, workers=14, timeout=3000, cases_file=body)
+    if r["alpha"] is None:
+        raise ToolError("RandLines did not print its alphabet")
+    with open(cases, "w") as f:
+        f.write(json.dumps({"alpha": r["alpha"]}) + "\n")
+        with open(body) as b:
+            for ln in b:
+                f.write(ln)
+    os.remove(body)
+    return cases
+
+
 def check_C14(ctx):
     thorough = ctx.tier == "thorough"
     for m in ("PathString", "Samples", "HitObjectLine", "Trace_HitObjectLine"):
@@ -374,6 +453,13 @@ def check_C14(ctx):
         summ = harness(ctx, ["hitobj", "replay", "--prop", "C14", "--spellings", "2"], cases_file=f, name="hitobj-" + a,
                        timeout=3600)
         report_mismatches(ctx, summ, "hit-object decoding differs from the HitObjectLine specification (alphabet %s)" % a)
+    # randomised alphabet (values drawn with the seed from wide ranges; the model is the oracle): all sequences of two lines
+    # (the thorough tier draws six alphabets; the last one is the every-change one, so that spec/RandLines.tla ends as committed)
+    for salt in ([5, 4, 3, 2, 1, 0] if thorough else [0]):
+        f = hitobj_rand_cases(ctx, 150 if salt else 120, 2, salt=salt)
+        summ = harness(ctx, ["hitobj", "replay", "--prop", "C14", "--spellings", "2"], cases_file=f, name="hitobj-rand", timeout=3600)
+        report_mismatches(ctx, summ, "hit-object decoding differs from the HitObjectLine specification (randomised alphabet %d)" % salt)
+        os.remove(f)
     # long behaviours of the specification itself (tlc -simulate): 30-line sequences mixing all kinds
     # (not the `num` alphabet: its 9000-repeat sliders carry 9002 node sample lists per successor)
     for (a, num) in ((("combo", 600), ("nodes", 25)) if thorough else (("combo", 60),)):
@@ -829,6 +915,11 @@ def check_C02(ctx):
         f = hitobj_cases(ctx, a, n, ml, invariants=("LineCodec",))
         summ = harness(ctx, ["hitobj", "codec"], cases_file=f, name="hitobj-codec-" + a, timeout=3600)
         report_mismatches(ctx, summ, "the encoder's hit-object line differs from HitObjectLine!EncOf (alphabet %s)" % a)
+        os.remove(f)
+    for salt in ([5, 4, 3, 2, 1, 0] if thorough else [0]):
+        f = hitobj_rand_cases(ctx, 150 if salt else 120, 2, salt=salt)
+        summ = harness(ctx, ["hitobj", "codec"], cases_file=f, name="hitobj-codec-rand", timeout=3600)
+        report_mismatches(ctx, summ, "the encoder's hit-object line differs from HitObjectLine!EncOf (randomised alphabet %d)" % salt)
         os.remove(f)
     # (3) timing points: encoder transcription composed with the decoder
     plan = [("AlphaVel", "GensModes", 3), ("AlphaAll", "GensTwo", 2)] if thorough else [("AlphaVel", "GensModes", 2), ("AlphaEff", "GensTwo", 2)]
